@@ -156,27 +156,37 @@ func (mt *msgTable) intern(proto uint16, b []byte) int {
 type lState struct {
 	id       int32
 	key      string
-	hist     []int32 // shortest known local history
-	alt      []int32 // a different history reaching the same key (for the differential check)
+	hist     []hEv // shortest known local history
+	alt      []hEv // a different history reaching the same key (for the differential check)
 	fin      string  // finalized block id at height 1 ("" if none)
 	finRound int32
 	finOK    bool   // independent recount of the commit certificate succeeded
 	finWhy   string
 	panicked string
+	equiv    string
+	notDur   string
+	restarts int
+	resigned int
 	round    int32
 	timers   int
 	pend     int
 	terminal bool
 }
 
+// hEv is one local event: ev, optionally interrupted by a crash before its
+// fail-th effect (followed by the restart).
+type hEv struct{ ev, fail int32 }
+
 type lStep struct {
-	next int32
-	outs []int32
+	next    int32
+	outs    []int32
+	effects int // WAL writes + WAL syncs + network sends of the (uninterrupted) step
 }
 
 type lKey struct {
-	s  int32
-	ev int32
+	s    int32
+	ev   int32
+	fail int32 // 0 = run the step to completion; k = crash before its k-th effect, then restart
 }
 
 type xStats struct {
@@ -230,7 +240,15 @@ func (x *explorer) freshNode(i int) *csNode {
 // applyEvent applies one local event to a live node and returns the ids of the
 // messages it sent.
 func (x *explorer) applyEvent(n *csNode, ev int32) []int32 {
+	return x.applyEventFail(n, ev, 0)
+}
+
+// applyEventFail applies ev with a crash injected before the fail-th effect of
+// the step (0 = none); an interrupted step is followed by the restart.
+func (x *explorer) applyEventFail(n *csNode, ev int32, fail int32) []int32 {
 	x.stats.engineSteps++
+	n.effects, n.failAt, n.crashedInStep = 0, int(fail), false
+	defer func() { n.failAt = 0 }()
 	switch {
 	case ev >= 0:
 		m := x.mt.msgs[ev]
@@ -242,6 +260,10 @@ func (x *explorer) applyEvent(n *csNode, ev int32) []int32 {
 	case ev <= evComplete:
 		n.complete(int(evComplete - ev))
 	}
+	n.failAt = 0
+	if n.crashedInStep {
+		n.crashRestart()
+	}
 	var outs []int32
 	for _, s := range n.takeOut() {
 		outs = append(outs, int32(x.mt.intern(s.Proto, s.Bytes)))
@@ -250,7 +272,8 @@ func (x *explorer) applyEvent(n *csNode, ev int32) []int32 {
 }
 
 func (x *explorer) describe(n *csNode) *lState {
-	st := &lState{key: n.projection(x.mt.psIDs), panicked: n.panicked}
+	st := &lState{key: n.projection(x.mt.psIDs), panicked: n.panicked, equiv: n.equivocated, notDur: n.notDurable,
+		restarts: n.restarts, resigned: n.resigned}
 	if !n.dead() {
 		st.round = n.cs.round
 		st.timers = len(n.pendingTimers())
@@ -268,24 +291,36 @@ func (x *explorer) describe(n *csNode) *lState {
 	return st
 }
 
-func (x *explorer) internState(i int, n *csNode, hist []int32) *lState {
+func (x *explorer) internState(i int, n *csNode, hist []hEv) *lState {
 	d := x.describe(n)
 	if id, ok := x.byKey[i][d.key]; ok {
 		st := x.states[i][id]
 		if st.alt == nil && !eqHist(st.hist, hist) {
-			st.alt = append([]int32(nil), hist...)
+			st.alt = append([]hEv(nil), hist...)
 		}
 		return st
 	}
 	d.id = int32(len(x.states[i]))
-	d.hist = append([]int32(nil), hist...)
+	d.hist = append([]hEv(nil), hist...)
 	x.states[i] = append(x.states[i], d)
 	x.byKey[i][d.key] = d.id
 	x.stats.localStates++
 	return d
 }
 
-func eqHist(a, b []int32) bool {
+func eqOuts(a, b []int32) bool {
+	if len(a) != len(b) {
+		return false
+	}
+	for i := range a {
+		if a[i] != b[i] {
+			return false
+		}
+	}
+	return true
+}
+
+func eqHist(a, b []hEv) bool {
 	if len(a) != len(b) {
 		return false
 	}
@@ -308,20 +343,22 @@ func (x *explorer) initial(i int) *lState {
 	return st
 }
 
-func (x *explorer) rebuild(i int, hist []int32) *csNode {
+func (x *explorer) rebuild(i int, hist []hEv) *csNode {
 	x.stats.rebuilds++
 	n := x.freshNode(i)
 	n.takeOut()
-	for _, ev := range hist {
-		x.applyEvent(n, ev)
+	for _, h := range hist {
+		x.applyEventFail(n, h.ev, h.fail)
 	}
 	return n
 }
 
 // step returns the memoised successor of local state s of node i under ev,
 // executing the real engine on a miss.
-func (x *explorer) step(i int, s int32, ev int32) lStep {
-	k := lKey{s, ev}
+func (x *explorer) step(i int, s int32, ev int32) lStep { return x.stepF(i, s, ev, 0) }
+
+func (x *explorer) stepF(i int, s int32, ev int32, fail int32) lStep {
+	k := lKey{s, ev, fail}
 	if r, ok := x.memo[i][k]; ok {
 		return r
 	}
@@ -333,8 +370,9 @@ func (x *explorer) step(i int, s int32, ev int32) lStep {
 	} else {
 		n = x.rebuild(i, src.hist)
 	}
-	outs := x.applyEvent(n, ev)
-	nh := append(append(make([]int32, 0, len(src.hist)+1), src.hist...), ev)
+	outs := x.applyEventFail(n, ev, fail)
+	effects := n.effects
+	nh := append(append(make([]hEv, 0, len(src.hist)+1), src.hist...), hEv{ev, fail})
 	dst := x.internState(i, n, nh)
 	if len(x.live[i]) > 64 {
 		for k := range x.live[i] {
@@ -343,7 +381,7 @@ func (x *explorer) step(i int, s int32, ev int32) lStep {
 		}
 	}
 	x.live[i][dst.id] = n
-	res := lStep{next: dst.id, outs: outs}
+	res := lStep{next: dst.id, outs: outs, effects: effects}
 	x.memo[i][k] = res
 	// differential check of the projection
 	if src.alt != nil && (x.diffEvery <= 1 || x.stats.memoMiss%x.diffEvery == 0) {
@@ -354,9 +392,9 @@ func (x *explorer) step(i int, s int32, ev int32) lStep {
 			x.stats.diffMismatch++
 			x.mismatch = append(x.mismatch, fmt.Sprintf("node %d: alt history does not reproduce key\n hist=%v\n alt=%v\n key =%s\n key2=%s", i, src.hist, src.alt, src.key, k2))
 		} else {
-			outs2 := x.applyEvent(n2, ev)
+			outs2 := x.applyEventFail(n2, ev, fail)
 			d2 := x.describe(n2)
-			if d2.key != dst.key || !eqHist(outs, outs2) {
+			if d2.key != dst.key || !eqOuts(outs, outs2) {
 				x.stats.diffMismatch++
 				x.mismatch = append(x.mismatch, fmt.Sprintf("node %d: projection too coarse at ev=%s\n from key=%s\n via hist: %s outs=%v\n via alt : %s outs=%v", i, x.evName(ev), src.key, dst.key, outs, d2.key, outs2))
 			}
@@ -397,6 +435,7 @@ type gEdge struct {
 	parent int32
 	node   int8
 	ev     int32
+	fail   int32
 }
 
 type gResult struct {
@@ -423,6 +462,7 @@ type gEvent struct {
 	Proto uint16 `json:"proto,omitempty"`
 	Bytes string `json:"bytes,omitempty"`
 	K     int    `json:"k,omitempty"`
+	Fail  int    `json:"crash_before_effect,omitempty"` // the step is interrupted by a crash before this effect (WAL write / WAL sync / send), then the node restarts
 }
 
 type searchCfg struct {
@@ -433,6 +473,7 @@ type searchCfg struct {
 	initialBag  []int32
 	// onlyRelevant restricts deliveries to messages of the current height
 	crashable   func(node int, st *lState) bool
+	crashInside bool // also crash inside every step, before each WAL write / WAL sync / send
 }
 
 func (x *explorer) search(cfg searchCfg) *gResult {
@@ -465,6 +506,12 @@ func (x *explorer) search(cfg searchCfg) *gResult {
 			st := x.states[i][g.L[i]]
 			if st.panicked != "" {
 				report(g, id, "engine-panic:"+firstLine(st.panicked), fmt.Sprintf("node V%d panicked: %s", i, st.panicked))
+			}
+			if st.equiv != "" {
+				report(g, id, "equivocation", fmt.Sprintf("correct validator V%d equivocated: %s", i, st.equiv))
+			}
+			if st.notDur != "" {
+				report(g, id, "sent-before-durable", fmt.Sprintf("correct validator V%d: %s", i, st.notDur))
 			}
 			if st.fin != "" {
 				fins = append(fins, fmt.Sprintf("V%d=%s@r%d", i, x.mt.blockName(unhex(st.fin)), st.finRound))
@@ -504,10 +551,11 @@ func (x *explorer) search(cfg searchCfg) *gResult {
 				if st.terminal {
 					continue
 				}
-				try := func(ev int32) {
-					r := x.step(i, st.id, ev)
+				var tryF func(ev int32, fail int32) lStep
+				tryF = func(ev int32, fail int32) lStep {
+					r := x.stepF(i, st.id, ev, fail)
 					if r.next == st.id && len(r.outs) == 0 {
-						return
+						return r
 					}
 					ng := g
 					ng.L[i] = r.next
@@ -517,18 +565,28 @@ func (x *explorer) search(cfg searchCfg) *gResult {
 						}
 						ng.bag.add(o)
 					}
-					if ev == evCrash {
+					if ev == evCrash || fail > 0 {
 						ng.crashes++
 					}
 					res.transitions++
 					if _, ok := seen[ng]; ok {
-						return
+						return r
 					}
 					id := int32(len(edges))
 					seen[ng] = id
-					edges = append(edges, gEdge{parent: gid, node: int8(i), ev: ev})
+					edges = append(edges, gEdge{parent: gid, node: int8(i), ev: ev, fail: fail})
 					check(ng, id)
 					next = append(next, ng)
+					return r
+				}
+				canCrash := int(g.crashes) < cfg.maxCrashes && (cfg.crashable == nil || cfg.crashable(i, st))
+				try := func(ev int32) {
+					r := tryF(ev, 0)
+					if cfg.crashInside && canCrash {
+						for k := 1; k <= r.effects; k++ {
+							tryF(ev, int32(k))
+						}
+					}
 				}
 				if st.timers > 0 {
 					try(evTimer)
@@ -542,8 +600,8 @@ func (x *explorer) search(cfg searchCfg) *gResult {
 						try(m)
 					}
 				}
-				if int(g.crashes) < cfg.maxCrashes && (cfg.crashable == nil || cfg.crashable(i, st)) {
-					try(evCrash)
+				if canCrash {
+					tryF(evCrash, 0)
 				}
 			}
 		}
@@ -559,7 +617,10 @@ func (x *explorer) trace(edges []gEdge, id int32) []gEvent {
 	var rev []gEvent
 	for id > 0 {
 		e := edges[id]
-		ge := gEvent{Node: int(e.node), Ev: x.evName(e.ev)}
+		ge := gEvent{Node: int(e.node), Ev: x.evName(e.ev), Fail: int(e.fail)}
+		if e.fail > 0 {
+			ge.Ev += fmt.Sprintf(" [crash before effect %d of this step, restart]", e.fail)
+		}
 		switch {
 		case e.ev >= 0:
 			m := x.mt.msgs[e.ev]
@@ -583,6 +644,12 @@ func (x *explorer) trace(edges []gEdge, id int32) []gEvent {
 // replayTrace runs a global event list on fresh real engines, without any
 // table of the explorer, and returns what each node finalized.
 func replayTrace(env *csEnv, correct []int, tr []gEvent, hook func(n *csNode)) (fins map[int]string, panics map[int]string, certOK map[int]bool) {
+	fins, panics, certOK, _ = replayTraceFull(env, correct, tr, hook)
+	return
+}
+
+// replayTraceFull additionally returns the C02 observations per node.
+func replayTraceFull(env *csEnv, correct []int, tr []gEvent, hook func(n *csNode)) (fins map[int]string, panics map[int]string, certOK map[int]bool, c02 map[int][2]string) {
 	nodes := map[int]*csNode{}
 	for _, i := range correct {
 		nodes[i] = newCSNode(env, i)
@@ -595,6 +662,7 @@ func replayTrace(env *csEnv, correct []int, tr []gEvent, hook func(n *csNode)) (
 		if n == nil {
 			continue
 		}
+		n.effects, n.failAt, n.crashedInStep = 0, e.Fail, false
 		switch e.Kind {
 		case "deliver":
 			n.deliver(e.Proto, unhex(e.Bytes), nil)
@@ -605,9 +673,16 @@ func replayTrace(env *csEnv, correct []int, tr []gEvent, hook func(n *csNode)) (
 		case "complete":
 			n.complete(e.K)
 		}
+		n.failAt = 0
+		if n.crashedInStep {
+			n.crashRestart()
+		}
 	}
-	fins, panics, certOK = map[int]string{}, map[int]string{}, map[int]bool{}
+	fins, panics, certOK, c02 = map[int]string{}, map[int]string{}, map[int]bool{}, map[int][2]string{}
 	for i, n := range nodes {
+		if n.equivocated != "" || n.notDurable != "" {
+			c02[i] = [2]string{n.equivocated, n.notDurable}
+		}
 		if len(n.finalized) > 0 {
 			fins[i] = n.finalized[0]
 			certOK[i] = n.finCertOK
@@ -670,6 +745,7 @@ type dAction struct {
 	kind string // "ev" | "part" | "release"
 	node int
 	ev   int32
+	fail int32 // crash before this effect of the step (0 = none)
 	part uint8
 	menu int
 	to   int // node or -1 = all
@@ -683,6 +759,7 @@ type devCfg struct {
 	stop       func() bool
 	maxStates  int
 	reorder    bool
+	crashInside bool // deviation: crash inside the default next step, before each of its effects
 	prefix     []dAction // base schedule applied before the search starts (cost 0)
 }
 
@@ -760,7 +837,10 @@ func (x *explorer) searchDev(cfg devCfg) *devResult {
 			if a.kind != "ev" {
 				continue
 			}
-			ge := gEvent{Node: a.node, Ev: x.evName(a.ev)}
+			ge := gEvent{Node: a.node, Ev: x.evName(a.ev), Fail: int(a.fail)}
+			if a.fail > 0 {
+				ge.Ev += fmt.Sprintf(" [crash before effect %d of this step, restart]", a.fail)
+			}
 			switch {
 			case a.ev >= 0:
 				m := x.mt.msgs[a.ev]
@@ -790,6 +870,12 @@ func (x *explorer) searchDev(cfg devCfg) *devResult {
 			st := x.states[i][s.L[i]]
 			if st.panicked != "" {
 				report("engine-panic:"+firstLine(st.panicked), fmt.Sprintf("node V%d panicked: %s", i, st.panicked))
+			}
+			if st.equiv != "" {
+				report("equivocation", fmt.Sprintf("correct validator V%d equivocated: %s", i, st.equiv))
+			}
+			if st.notDur != "" {
+				report("sent-before-durable", fmt.Sprintf("correct validator V%d: %s", i, st.notDur))
 			}
 			if st.fin != "" {
 				fins = append(fins, fmt.Sprintf("V%d=%s@r%d", i, x.mt.blockName(unhex(st.fin)), st.finRound))
@@ -824,7 +910,7 @@ func (x *explorer) searchDev(cfg devCfg) *devResult {
 			return s, changed
 		}
 		st := x.states[a.node][s.L[a.node]]
-		r := x.step(a.node, st.id, a.ev)
+		r := x.stepF(a.node, st.id, a.ev, a.fail)
 		if r.next == st.id && len(r.outs) == 0 {
 			return s, false
 		}
@@ -835,7 +921,7 @@ func (x *explorer) searchDev(cfg devCfg) *devResult {
 			}
 			s.bag.add(o)
 		}
-		if a.ev == evCrash {
+		if a.ev == evCrash || a.fail > 0 {
 			s.crashes++
 		}
 		return s, true
@@ -868,7 +954,9 @@ func (x *explorer) searchDev(cfg devCfg) *devResult {
 		}
 		return dAction{}, false
 	}
-	sameAction := func(a, b dAction) bool { return a.kind == b.kind && a.node == b.node && a.ev == b.ev }
+	sameAction := func(a, b dAction) bool {
+		return a.kind == b.kind && a.node == b.node && a.ev == b.ev && a.fail == b.fail
+	}
 
 	var dfs func(s dState, budget int, used int)
 	dfs = func(s dState, budget int, used int) {
@@ -919,6 +1007,15 @@ func (x *explorer) searchDev(cfg devCfg) *devResult {
 			path = append(path, a)
 			dfs(ns, budget-1, used+1)
 			path = path[:len(path)-1]
+		}
+		if cfg.crashInside && hasDef && def.kind == "ev" && int(s.crashes) < cfg.maxCrashes {
+			st := x.states[def.node][s.L[def.node]]
+			r := x.stepF(def.node, st.id, def.ev, 0)
+			for k := 1; k <= r.effects; k++ {
+				a := def
+				a.fail = int32(k)
+				alt(a)
+			}
 		}
 		maxR, minR := int32(0), int32(1<<30)
 		anyLive := false
